@@ -55,7 +55,65 @@ fn reopen(req: &Value) -> Value {
     json!({"new_node": new_node, "new_edge": new_edge, "problems": bad, "violates": !bad.is_empty()})
 }
 
+
+/// C18 P1: a graph built through the public API, one find_path(from, to); the answer is judged against a breadth-first search that
+/// follows directed edges forwards only and undirected edges both ways.
+fn find_path(req: &Value) -> Value {
+    let g = GraphEngine::new();
+    let wn: Vec<u64> = req["nodes"].as_array().into_iter().flatten().filter_map(Value::as_u64).collect();
+    let nodes: Vec<u64> = wn.iter().map(|_| g.create_node("N", HashMap::new()).unwrap()).collect();
+    let node_of = |w: u64| wn.iter().position(|x| *x == w).map_or(900_000 + (w % 1000), |i| nodes[i]);
+    let mut es: Vec<(u64, u64, u64, bool)> = vec![];
+    for e in req["edges"].as_array().into_iter().flatten() {
+        let (a, b, d) = (nodes[e[0].as_u64().unwrap_or(0) as usize], nodes[e[1].as_u64().unwrap_or(0) as usize], e[3].as_bool().unwrap_or(true));
+        es.push((g.create_edge(a, b, "T", HashMap::new(), d).unwrap(), a, b, d));
+    }
+    let (from, to) = (node_of(req["arg1"].as_u64().unwrap_or(0)), node_of(req["arg2"].as_u64().unwrap_or(0)));
+    let step = |a: u64, b: u64, id: Option<u64>| es.iter().any(|(eid, f, t, d)| id.map_or(true, |i| i == *eid) && ((*f == a && *t == b) || (!*d && *f == b && *t == a)));
+    // reference distances
+    let mut dist: HashMap<u64, usize> = HashMap::new();
+    let mut queue = std::collections::VecDeque::new();
+    if nodes.contains(&from) {
+        dist.insert(from, 0);
+        queue.push_back(from);
+    }
+    while let Some(c) = queue.pop_front() {
+        for n in &nodes {
+            if !dist.contains_key(n) && step(c, *n, None) {
+                dist.insert(*n, dist[&c] + 1);
+                queue.push_back(*n);
+            }
+        }
+    }
+    let mut bad: Vec<String> = vec![];
+    let outcome = match g.find_path(from, to, None) {
+        Ok(p) => {
+            if p.nodes.first() != Some(&from) || p.nodes.last() != Some(&to) { bad.push(format!("path {:?} does not run from {from} to {to}", p.nodes)); }
+            if p.edges.len() + 1 != p.nodes.len() { bad.push("edge list does not match node list".into()); }
+            for (i, w) in p.nodes.windows(2).enumerate() {
+                if !step(w[0], w[1], p.edges.get(i).copied()) { bad.push(format!("step {} -> {} via edge {:?} is not an edge in that direction", w[0], w[1], p.edges.get(i))); }
+            }
+            match dist.get(&to) {
+                Some(d) if *d == p.edges.len() => {}
+                Some(d) => bad.push(format!("path has {} hops, a path with {d} exists", p.edges.len())),
+                None => bad.push("a path was returned although none exists".into()),
+            }
+            json!({"ok": {"nodes": p.nodes, "edges": p.edges}})
+        }
+        Err(e) => {
+            let s = e.to_string();
+            if nodes.contains(&from) && nodes.contains(&to) && dist.contains_key(&to) { bad.push(format!("{s} although a path with {} hops exists", dist[&to])); }
+            if !(nodes.contains(&from) && nodes.contains(&to)) && !s.to_lowercase().contains("not found") { bad.push(format!("unexpected error {s}")); }
+            json!({"err": s})
+        }
+    };
+    json!({"outcome": outcome, "problems": bad, "violates": !bad.is_empty()})
+}
+
 pub fn handle(op: &str, req: &Value) -> Option<Value> {
+    if op == "graph_find_path" {
+        return Some(find_path(req));
+    }
     if op == "graph_reopen" {
         return Some(reopen(req));
     }
